@@ -49,6 +49,12 @@ func ok_even_scan(b []byte) int { end := len(b) &^ 1; for end != 0 && b[end-2] =
 func bad_index_odd_scan(b []byte) int { end := len(b); for end != 0 && b[end-2] == 0 { end -= 2 }; return end }
 func ok_window3(b []byte) [5]byte { var o [5]byte; if len(b) > 15 || len(b)%3 != 0 { return o }; for i := 0; len(b) != 0; i, b = i+1, b[3:] { o[i] = b[0] }; return o }
 func bad_index_window3(b []byte) [5]byte { var o [5]byte; if len(b) > 18 || len(b)%3 != 0 { return o }; for i := 0; len(b) != 0; i, b = i+1, b[3:] { o[i] = b[0] }; return o }
+type rdr struct{ data []byte; err error }
+func (r *rdr) take(n int) []byte { b := r.data[:n]; r.data = r.data[n:]; return b }
+func und_slice_reader(b []byte) byte { if len(b) != 3 { return 0 }; r := &rdr{data: b}; x := r.take(1); y := r.take(2); return x[0] ^ y[1] }
+type szr interface{ Size() int }
+func und_slice_dispatch(b []byte, s szr) []byte { if len(b) == 0 || s == nil { return nil }; return b[s.Size():] }
+func bad_slice_tracked(b []byte, n int) []byte { if len(b) == 0 { return nil }; return b[n:] }
 func bad_div_zero(n, d int) int { return n / d }
 func ok_div(n, d int) int { if d <= 0 { return 0 }; return n / d }
 func bad_make_neg(n int) []byte { return make([]byte, n) }
@@ -148,25 +154,42 @@ func SelfTest() (problems []string, n int) {
 		fn := spkg.Func(name)
 		n++
 		failedKinds := map[string]int{}
+		undecidedKinds := map[string]int{}
+		whyUnd := ""
 		for _, o := range e.Obligations(fn) {
-			if o.Status != Proved {
+			switch o.Status {
+			case Failed:
 				failedKinds[o.Kind]++
+			case Unsupported:
+				undecidedKinds[o.Kind]++
+				whyUnd = o.Why
 			}
 		}
 		for _, lp := range e.LoopProgress(fn) {
-			if lp.Status != Proved {
+			switch lp.Status {
+			case Failed:
 				failedKinds["loop"]++
+			case Unsupported:
+				undecidedKinds["loop"]++
 			}
 		}
+		if strings.HasPrefix(name, "und_") {
+			// outside the tracked memory model: undecided, and in particular not reported as a violation
+			kind := strings.SplitN(strings.TrimPrefix(name, "und_"), "_", 2)[0]
+			if undecidedKinds[kind] == 0 || len(failedKinds) > 0 {
+				problems = append(problems, fmt.Sprintf("fixture %s: expected an undecided %q obligation and no violation, got undecided %v, failed %v", name, kind, undecidedKinds, failedKinds))
+			}
+			continue
+		}
 		if strings.HasPrefix(name, "ok_") {
-			if len(failedKinds) > 0 {
-				problems = append(problems, fmt.Sprintf("fixture %s: expected every obligation discharged, failed kinds %v", name, failedKinds))
+			if len(failedKinds) > 0 || len(undecidedKinds) > 0 {
+				problems = append(problems, fmt.Sprintf("fixture %s: expected every obligation discharged, failed kinds %v, undecided %v", name, failedKinds, undecidedKinds))
 			}
 			continue
 		}
 		kind := strings.SplitN(strings.TrimPrefix(name, "bad_"), "_", 2)[0]
 		if failedKinds[kind] == 0 {
-			problems = append(problems, fmt.Sprintf("fixture %s: expected a failed %q obligation, got %v", name, kind, failedKinds))
+			problems = append(problems, fmt.Sprintf("fixture %s: expected a failed %q obligation, got %v (undecided: %v %s)", name, kind, failedKinds, undecidedKinds, whyUnd))
 		}
 	}
 	return problems, n
